@@ -27,6 +27,7 @@ import (
 	"strings"
 	"time"
 
+	"golang.org/x/tools/go/packages"
 	"golang.org/x/tools/go/ssa"
 
 	"gvtranslate/tx"
@@ -370,6 +371,22 @@ func analyse(fn *ssa.Function) {
 				}
 				continue
 			}
+			if c.IsInvoke() {
+				// interface method call: every method of a module type implementing the interface (CHA on module types)
+				args := append([]ssa.Value{c.Value}, c.Args...)
+				for _, cal := range invokeTargets(c) {
+					cs := sum(cal)
+					for i, arg := range args {
+						if cs.wt1[i] {
+							note(a.valBase(arg), "via (interface) "+cal.String())
+						}
+						if cs.wt2[i] {
+							note(a.deref(a.valBase(arg)), "via (interface) "+cal.String())
+						}
+					}
+				}
+				continue
+			}
 			cal := c.StaticCallee()
 			if cal == nil {
 				continue
@@ -401,6 +418,30 @@ func analyse(fn *ssa.Function) {
 			}
 		}
 	}
+}
+
+// methods of module types by name, for interface calls
+var methodsByName = map[string][]*ssa.Function{}
+var invokeMemo = map[*types.Func][]*ssa.Function{}
+
+func invokeTargets(c *ssa.CallCommon) []*ssa.Function {
+	if r, ok := invokeMemo[c.Method]; ok {
+		return r
+	}
+	var out []*ssa.Function
+	iface, _ := c.Value.Type().Underlying().(*types.Interface)
+	if iface != nil {
+		for _, m := range methodsByName[c.Method.Name()] {
+			rt := m.Signature.Recv().Type()
+			if types.Implements(rt, iface) {
+				out = append(out, m)
+			} else if _, isPtr := rt.(*types.Pointer); !isPtr && types.Implements(types.NewPointer(rt), iface) {
+				out = append(out, m)
+			}
+		}
+	}
+	invokeMemo[c.Method] = out
+	return out
 }
 
 func isInit(fn *ssa.Function) bool {
@@ -451,6 +492,7 @@ func main() {
 		fmt.Fprintln(os.Stderr, "load:", err)
 		os.Exit(2)
 	}
+	tLoad := time.Since(t0)
 	allow, err := readAllow(*allowPath)
 	if err != nil {
 		fmt.Fprintln(os.Stderr, "allow:", err)
@@ -458,20 +500,66 @@ func main() {
 	}
 	fns := l.SortedFuncs()
 	// worklist fixpoint: re-analyse a function only when the summary of a static callee changed
+	for _, fn := range fns {
+		if fn.Signature.Recv() != nil && tx.InModule(fn) && fn.Parent() == nil && len(fn.Blocks) > 0 && fn.Synthetic == "" {
+			methodsByName[fn.Name()] = append(methodsByName[fn.Name()], fn)
+		}
+	}
 	callers := map[*ssa.Function][]*ssa.Function{}
 	for _, fn := range fns {
 		seen := map[*ssa.Function]bool{}
 		for _, bl := range fn.Blocks {
 			for _, ins := range bl.Instrs {
 				if ci, ok := ins.(ssa.CallInstruction); ok {
-					if cal := ci.Common().StaticCallee(); cal != nil && !seen[cal] {
-						seen[cal] = true
-						callers[cal] = append(callers[cal], fn)
+					var cals []*ssa.Function
+					if ci.Common().IsInvoke() {
+						cals = invokeTargets(ci.Common())
+					} else if cal := ci.Common().StaticCallee(); cal != nil {
+						cals = []*ssa.Function{cal}
+					}
+					for _, cal := range cals {
+						if !seen[cal] {
+							seen[cal] = true
+							callers[cal] = append(callers[cal], fn)
+						}
 					}
 				}
 			}
 		}
 	}
+	// only functions reachable from module functions through static calls (and module methods through
+	// interface calls) can contribute to a module function's summary
+	callees := map[*ssa.Function][]*ssa.Function{}
+	for cal, cs := range callers {
+		for _, c := range cs {
+			callees[c] = append(callees[c], cal)
+		}
+	}
+	need := map[*ssa.Function]bool{}
+	var stack []*ssa.Function
+	for _, fn := range fns {
+		if tx.InModule(fn) {
+			need[fn] = true
+			stack = append(stack, fn)
+		}
+	}
+	for len(stack) > 0 {
+		fn := stack[len(stack)-1]
+		stack = stack[:len(stack)-1]
+		for _, c := range callees[fn] {
+			if !need[c] {
+				need[c] = true
+				stack = append(stack, c)
+			}
+		}
+	}
+	var kept []*ssa.Function
+	for _, fn := range fns {
+		if need[fn] {
+			kept = append(kept, fn)
+		}
+	}
+	fns = kept
 	dirty := map[*ssa.Function]bool{}
 	for _, fn := range fns {
 		dirty[fn] = true
@@ -536,6 +624,11 @@ func main() {
 		}
 		for v, how := range s.wr {
 			r := rows[v]
+			if r == nil && !(how == "store" || strings.HasPrefix(how, "call ")) {
+				// write-through rows are kept for the module's own variables only: objects the Go standard
+				// library hands out (os.Stdin, crypto/rand.Reader, error values) are outside the table
+				continue
+			}
 			if r == nil {
 				// state outside the module (stdlib): only the curated pseudo variables and direct stores
 				r = &row{Var: v, Type: "(process-global state of the Go standard library)", Pos: "-"}
@@ -624,6 +717,43 @@ func main() {
 		w(")")
 	}
 	w("\n].\n\n")
+	// independent enumeration of the package-level variables: go/types scopes of every module package loaded
+	type pv struct {
+		pkg  string
+		vars []string
+	}
+	var allv []pv
+	nall := 0
+	packages.Visit(l.Pkgs, nil, func(p *packages.Package) {
+		if !(p.PkgPath == tx.Module || strings.HasPrefix(p.PkgPath, tx.Module+"/")) || p.Types == nil {
+			return
+		}
+		rel := strings.TrimPrefix(strings.TrimPrefix(p.PkgPath, tx.Module), "/")
+		if rel == "" {
+			rel = "."
+		}
+		e := pv{pkg: rel}
+		sc := p.Types.Scope()
+		for _, n := range sc.Names() {
+			if _, ok := sc.Lookup(n).(*types.Var); ok {
+				e.vars = append(e.vars, rel+"."+n)
+			}
+		}
+		nall += len(e.vars)
+		allv = append(allv, e)
+	})
+	sort.Slice(allv, func(i, j int) bool { return allv[i].pkg < allv[j].pkg })
+	w("(* every package of the module that was loaded (import closure of ./lib/... ./runtime/..., non-test, default tags)\n    with its package-level variables, enumerated from the type checker's package scopes (independently of the SSA\n    members the rows above come from) *)\n")
+	w("Definition all_vars : list (string * list string) := [\n")
+	for i, e := range allv {
+		if i > 0 {
+			w(";\n")
+		}
+		w("  (%s, ", tx.CoqString(e.pkg))
+		strs(e.vars)
+		w(")")
+	}
+	w("\n].\nDefinition package_count : nat := %d.\nDefinition var_count : nat := %d.\n\n", len(allv), nall)
 	w("(* allow-list (translate/globals/allow.txt): variables whose write-through rows are spurious or harmless, one justification each; never covers direct assignments *)\n")
 	w("Definition allowed_vars : list string := [")
 	first := true
@@ -657,9 +787,9 @@ func main() {
 		}
 	}
 	if *jout != "" {
-		data, _ := json.MarshalIndent(map[string]interface{}{"rows": list, "allow_unused": unusedAllow,
+		data, _ := json.MarshalIndent(map[string]interface{}{"rows": list, "allow_unused": unusedAllow, "packages": len(allv), "vars_in_scopes": nall,
 			"total_s": time.Since(t0).Seconds()}, "", " ")
 		os.WriteFile(*jout, data, 0o644)
 	}
-	fmt.Fprintf(os.Stderr, "globals: %d variables, %d with writers outside init, %.1fs\n", len(list), nW, time.Since(t0).Seconds())
+	fmt.Fprintf(os.Stderr, "globals: %d variables, %d with writers outside init, %.1fs (load+ssa %.1fs, %d functions analysed)\n", len(list), nW, time.Since(t0).Seconds(), tLoad.Seconds(), len(fns))
 }
